@@ -5,6 +5,7 @@ import (
 	"context"
 	"errors"
 	"fmt"
+	"math"
 	"net"
 	"net/http"
 	"net/http/httputil"
@@ -237,6 +238,19 @@ func (lb *LoadBalancer) setupRateLimiter(cfg *config.Config) {
 	logging.L().Info().Int("max_tokens", maxTokens).Dur("refill_rate", refillRate).Msg("rate limiting enabled")
 }
 
+// clampUint32 converts a validated configuration value to the breaker's counter type
+// without wrapping around: a plain uint32() conversion turned max_requests 4294967297
+// into 1, below a success threshold of 3 - a breaker that could never close again.
+func clampUint32(v int) uint32 {
+	if v < 0 {
+		return 0
+	}
+	if uint64(v) > math.MaxUint32 {
+		return math.MaxUint32
+	}
+	return uint32(v)
+}
+
 func (lb *LoadBalancer) setupCircuitBreaker(cfg *config.Config) {
 	if !cfg.CircuitBreaker.Enabled {
 		return
@@ -244,11 +258,11 @@ func (lb *LoadBalancer) setupCircuitBreaker(cfg *config.Config) {
 
 	cbSettings := circuitbreaker.Settings{
 		Name:             "helios-lb",
-		MaxRequests:      uint32(cfg.CircuitBreaker.MaxRequests),      // #nosec G115 - config validated to be non-negative
+		MaxRequests:      clampUint32(cfg.CircuitBreaker.MaxRequests),
 		Interval:         time.Duration(cfg.CircuitBreaker.IntervalSeconds) * time.Second,
 		Timeout:          time.Duration(cfg.CircuitBreaker.TimeoutSeconds) * time.Second,
-		FailureThreshold: uint32(cfg.CircuitBreaker.FailureThreshold), // #nosec G115 - config validated to be positive
-		SuccessThreshold: uint32(cfg.CircuitBreaker.SuccessThreshold), // #nosec G115 - config validated to be positive
+		FailureThreshold: clampUint32(cfg.CircuitBreaker.FailureThreshold),
+		SuccessThreshold: clampUint32(cfg.CircuitBreaker.SuccessThreshold),
 		OnStateChange: func(name string, from circuitbreaker.State, to circuitbreaker.State) {
 			logging.L().Info().Str("circuit_breaker", name).Str("from", from.String()).Str("to", to.String()).Msg("circuit breaker state changed")
 			// The breaker invokes this callback while holding its own lock and Counts()
